@@ -251,6 +251,10 @@ func (x *ScheduleSettings) toInternal() (c *filter.ConfigSchedule, err error) {
 	}
 
 	w := x.WeeklyRange
+	if w == nil {
+		return nil, fmt.Errorf("weekly range: %w", errors.ErrNoValue)
+	}
+
 	days := []*DayRange{w.Sun, w.Mon, w.Tue, w.Wed, w.Thu, w.Fri, w.Sat}
 	for i, d := range days {
 		if d == nil {
